@@ -24,13 +24,7 @@ func (x *c12) checkClose() {
 	}
 	x.seen("C12.K4-closech", cOnce, p.Pos(fn.Pos()))
 
-	_, st := x.structOf("RunnerCloserManager")
-	var flags []FieldID
-	for i := 0; i < st.NumFields(); i++ {
-		if namedKey(st.Field(i).Type()) == "sync/atomic.Bool" {
-			flags = append(flags, FieldID{x.pkg + ".RunnerCloserManager", st.Field(i).Name()})
-		}
-	}
+	flags := x.fieldsWhere("RunnerCloserManager", c12IsFlagType)
 	const (
 		bOwnRun   = 1 << 0
 		bTriedRun = 1 << 1
@@ -221,21 +215,20 @@ func (x *c12) timerDurationOf(st *xState, ch ssa.Value) (xVal, bool) {
 	return xVal{}, false
 }
 
-// isDerefOf: every static root of v is a dereference *p of the parameter pa
-// (however v travelled: captured variable, helper parameter, temporary).
+// isDerefOf: v is the constructor's *pa however it travelled: every root of
+// the value — looking through captured variables, helper parameters,
+// temporaries and struct fields the package stores it in — is a dereference
+// whose address in turn only stems from the parameter pa.
 func (x *c12) isDerefOf(st *xState, v xVal, pa *ssa.Parameter) bool {
-	var roots []ssa.Value
+	var vroots []ssa.Value
 	if v.K == xAtom && v.V != nil {
-		if u, ok := v.V.(*ssa.UnOp); ok && u.Op == token.MUL {
-			// *addr: where does addr come from?
+		if u, ok := v.V.(*ssa.UnOp); ok && u.Op == token.MUL && (v.Base != nil || v.F != nil) {
+			// a load evaluated on this path: resolve its address in the path state
 			var ar []ssa.Value
-			switch {
-			case v.Base != nil:
+			if v.Base != nil {
 				ar = st.Static(*v.Base)
-			case v.F != nil:
+			} else {
 				ar = st.Static(st.EvalIn(v.F, u.X))
-			default:
-				ar = c12Roots(u.X, nil)
 			}
 			ar = x.throughFields(ar, 0)
 			if len(ar) > 0 {
@@ -251,11 +244,11 @@ func (x *c12) isDerefOf(st *xState, v xVal, pa *ssa.Parameter) bool {
 			}
 		}
 	}
-	roots = st.Static(v)
-	if len(roots) == 0 {
+	vroots = x.throughFields(st.Static(v), 0)
+	if len(vroots) == 0 {
 		return false
 	}
-	for _, r := range roots {
+	for _, r := range vroots {
 		u, ok := r.(*ssa.UnOp)
 		if !ok || u.Op != token.MUL {
 			return false
@@ -350,7 +343,7 @@ func (x *c12) checkConstructor() {
 			return true
 		}
 		for _, v := range vals {
-			f := funcOfValue(v)
+			f := funcOfValue(st, v)
 			if f == nil || !isFatalCloser(f) {
 				continue
 			}
